@@ -23,16 +23,14 @@ fn c04_cursor_shift() {
     kani::assume(wellformed_end <= 0);
     let c = if kani::any() { Cursor::BeginAligned(kani::any()) } else { Cursor::EndAligned(wellformed_end) };
     let d: isize = kani::any();
-    // stay inside the machine range: the shifted value must be representable
     let want: i128 = match c { Cursor::BeginAligned(x) => x as i128 + d as i128, Cursor::EndAligned(x) => x as i128 + d as i128 };
-    kani::assume(want <= isize::MAX as i128 && want >= isize::MIN as i128 && d != isize::MIN);
     let r = c.shift(d);
     match (&r, &c) {
-        (Ok(Cursor::BeginAligned(y)), Cursor::BeginAligned(_)) => assert!(*y as i128 == want && want >= 0, "begin-aligned shift is exact"),
+        (Ok(Cursor::BeginAligned(y)), Cursor::BeginAligned(_)) => assert!(*y as i128 == want, "begin-aligned shift is exact"),
         (Ok(Cursor::EndAligned(y)), Cursor::EndAligned(_)) => assert!(*y as i128 == want && *y <= 0, "end-aligned shift is exact and stays non-positive"),
         (Ok(_), _) => assert!(false, "shift keeps the alignment"),
-        (Err(_), Cursor::BeginAligned(_)) => assert!(want < 0, "begin-aligned shift fails only below zero"),
-        (Err(_), Cursor::EndAligned(_)) => assert!(want > 0, "end-aligned shift fails only above zero"),
+        (Err(_), Cursor::BeginAligned(_)) => assert!(want < 0 || want > usize::MAX as i128, "begin-aligned shift fails only outside 0..=usize::MAX"),
+        (Err(_), Cursor::EndAligned(_)) => assert!(want > 0 || want < isize::MIN as i128, "end-aligned shift fails only outside isize::MIN..=0"),
     }
     kani::cover!(r.is_ok() && d < 0, "shift left");
     kani::cover!(r.is_err(), "refused");
